@@ -154,6 +154,31 @@ def invoke(rustfmt, base, n, ids, mode, *, stdin_id=None, cwd_rel=None, env_extr
     return res
 
 
+def report_order(v, rustfmt, base):
+    """The diagnostics of one run name several files: what is printed on stderr is the same
+    bytes in every process (the order of the per-file blocks included)."""
+    d = base / "order"
+    d.mkdir()
+    long_ = "x" * 140
+    (d / "a.rs").write_text(f'mod b;\nmod c;\nmod d;\nfn f() {{\n    let s = "{long_}";\n}}\n')
+    for nm in "bcd":
+        (d / f"{nm}.rs").write_text(f'fn f() {{\n    let s = "{long_}";\n}}\n')
+    outs = []
+    for k in range(6):
+        r = subprocess.run([rustfmt, "--check", "--config",
+                            "error_on_line_overflow=true,error_on_unformatted=true,color=Never",
+                            str(d / "a.rs")], cwd=d, env=core.run_env({"HOME": str(d)}),
+                           capture_output=True, text=True, timeout=60)
+        outs.append((r.returncode, r.stdout, r.stderr))
+    if len(set(outs)) != 1:
+        orders = [[ln.strip().rsplit("/", 1)[-1].split(":")[0] for ln in e.split("\n")
+                   if ln.strip().startswith("-->")] for (_, _, e) in outs]
+        v.violation("repeat:report-order",
+                    f"six runs of the same `rustfmt --check` print their diagnostics differently: "
+                    f"file order per run {orders}", {"stderr": [e[-600:] for (_, _, e) in outs[:3]]})
+    return len(outs)
+
+
 def run(tier, seed, replay=None):
     v = Verdict("C15", tier, seed)
     rng = random.Random(seed)
@@ -206,6 +231,7 @@ def run(tier, seed, replay=None):
                                     f"run {k} of `rustfmt {m} {fid}` differs from run 1",
                                     {"file": fid, "mode": m, "first": first, "other": r})
                 single[(m, fid)] = first
+        n += report_order(v, rustfmt, base)
         # variants of the single run: other cwd, relative path, perturbed environment, stdin
         for fid in UNIVERSE:
             for tag, kw in (("cwd-sub", {"cwd_rel": "plain", "rel_paths": True}),
